@@ -15,7 +15,7 @@ LEVELS = {
  "C13": "proof",
  "C14": "other",
  "C15": "proof",
- "C16": "proof",
+ "C16": "other",
  "C17": "other",
  "C18": "proof",
  "C19": "other",
